@@ -53,70 +53,91 @@ def explore(f, node_budget, retry_sample=12, retry_levels=2):
     """Returns (mass: {value: int}, unresolved: int, scale_depth, nodes, leaves).
     Masses are integers scaled by 256**scale_depth.  Once some tape has produced
     a value, deeper nodes are retries after a rejection: only ``retry_sample``
-    evenly spaced ones per level are expanded, the rest count as unexplored mass."""
-    level = [b""]
+    evenly spaced ones per level are expanded, the rest count as unexplored mass.
+    Side results: explore.first_level (pre-image counts among the tapes on which
+    nothing is rejected) and explore.retry_roots (for every sampled first-level
+    retry node, the pre-image counts of *its* sub-tree at its first resolving level)."""
+    level = [(b"", None)]
     seen_leaf = False
     levels_after_leaf = 0
-    leaves = []        # (depth_bytes, value)
-    unresolved = []    # depths of unexpanded nodes
+    leaves = []        # (depth_bytes, value, root)
+    unresolved = []    # (depth, root) of unexpanded nodes
     nodes = 0
     maxdepth = 0
+    nroots = 0
     while level:
         nxt = []
-        for prefix in level:
+        for prefix, root in level:
             nodes += 1
             t = TreeTape(prefix)
             try:
                 v = f(t)
             except Need as nd:
                 if t.pos != len(prefix):
-                    unresolved.append(len(prefix))     # straddling read: do not expand
+                    unresolved.append((len(prefix), root))     # straddling read: do not expand
                     continue
-                nxt.append((prefix, nd.n))
+                nxt.append((prefix, nd.n, root))
                 continue
-            if t.pos != len(prefix):
-                # returned without consuming everything it was given: the prefix over-supplied; ignore the surplus
-                pass
-            leaves.append((len(prefix), v))
+            leaves.append((len(prefix), v, root))
             seen_leaf = True
             maxdepth = max(maxdepth, len(prefix))
         level = []
         if seen_leaf:
             levels_after_leaf += 1
             if levels_after_leaf > retry_levels:
-                unresolved.extend(len(prefix) for prefix, n in nxt)
+                unresolved.extend((len(prefix), root) for prefix, n, root in nxt)
                 nxt = []
         if seen_leaf and len(nxt) > retry_sample:
             stride = len(nxt) / float(retry_sample)
             keep = set(int(i * stride) for i in range(retry_sample))
-            for i, (prefix, n) in enumerate(nxt):
+            for i, (prefix, n, root) in enumerate(nxt):
                 if i not in keep:
-                    unresolved.append(len(prefix))
+                    unresolved.append((len(prefix), root))
             nxt = [x for i, x in enumerate(nxt) if i in keep]
-        for prefix, n in nxt:
+        if seen_leaf and levels_after_leaf == 1:
+            # the nodes kept here are the sampled "retry roots"
+            tagged = []
+            for prefix, n, root in nxt:
+                tagged.append((prefix, n, nroots))
+                nroots += 1
+            nxt = tagged
+        for prefix, n, root in nxt:
             width = 256 ** n
             if n > 2 or nodes + len(level) + width > node_budget:
-                unresolved.append(len(prefix))
+                unresolved.append((len(prefix), root))
                 continue
             if n == 1:
-                level.extend(prefix + bytes([b]) for b in range(256))
+                level.extend((prefix + bytes([b]), root) for b in range(256))
             else:
-                level.extend(prefix + bytes([a, b]) for a in range(256) for b in range(256))
-        maxdepth = max([maxdepth] + [len(p) for p in level[:1]])
-    scale = max([maxdepth] + unresolved + [0])
+                level.extend((prefix + bytes([a, b]), root) for a in range(256) for b in range(256))
+    scale = max([maxdepth] + [d for d, _ in unresolved] + [0])
     mass = {}
-    for d, v in leaves:
+    for d, v, _ in leaves:
         mass[v] = mass.get(v, 0) + 256 ** (scale - d)
-    U = sum(256 ** (scale - d) for d in unresolved)
+    U = sum(256 ** (scale - d) for d, _ in unresolved)
     first = {}
     if leaves:
-        L = min(d for d, _ in leaves)
+        L = min(d for d, _, _ in leaves)
         # complete only if no node shallower than or at L was left unexpanded
-        if not any(d < L for d in unresolved):
-            for d, v in leaves:
+        if not any(d < L for d, _ in unresolved):
+            for d, v, _ in leaves:
                 if d == L:
                     first[v] = first.get(v, 0) + 1
     explore.first_level = first
+    roots = {}
+    for r in range(nroots):
+        ls = [(d, v) for d, v, root in leaves if root == r]
+        if not ls:
+            continue
+        L = min(d for d, _ in ls)
+        if any(d < L for d, root in unresolved if root == r):
+            continue
+        cnt = {}
+        for d, v in ls:
+            if d == L:
+                cnt[v] = cnt.get(v, 0) + 1
+        roots[r] = cnt
+    explore.retry_roots = roots
     return mass, U, scale, nodes, len(leaves)
 
 
@@ -286,6 +307,9 @@ class Machine(object):
         if r < 0.88:
             return {"kind": "boundary_sign", "key": rng.choice(["dsa", "p256", "p384", "p521", "p224"]),
                     "tape": rng.choice(TAPE_KINDS), "seed": rng.randrange(1 << 30), "ops": []}
+        if r < 0.93:
+            return {"kind": "replay_history", "what": rng.choice(["primes", "primes", "dsa_keys", "getprime", "rsa_key", "ecc_keys"]),
+                    "seed": rng.randrange(1 << 30), "bits": rng.choice([160, 161, 200, 256]), "ops": []}
         return {"kind": "global", "what": rng.choice(["rsa_decrypt", "ecdsa_sign", "dsa_sign", "rsa_pss"]),
                 "tape": rng.choice(["zero", "ff", "seeded", "period"]), "seed": rng.randrange(1 << 30), "ops": []}
 
@@ -329,6 +353,21 @@ class Machine(object):
                             "the same number" % (name, cfg[1:], hi, first.get(hi, 0), lo, first.get(lo, 0)),
                             observed="max %d min %d" % (max(counts), min(counts)), expected="equal pre-image counts")
             ctx.probe("enum_first_level_uniform")
+        if cfg[0] not in ("sr_shuffle", "sr_sample"):
+            # single-draw samplers: a retry after a rejection must depend on fresh bytes only, so every sampled retry
+            # sub-tree is a sampler of its own and must pass the first-attempt criterion as well
+            for r, cnt in sorted(explore.retry_roots.items()):
+                if [v for v in cnt if v not in values]:
+                    continue
+                counts = [cnt.get(v, 0) for v in values]
+                if min(counts) != max(counts):
+                    lo = min(values, key=lambda v: cnt.get(v, 0))
+                    hi = max(values, key=lambda v: cnt.get(v, 0))
+                    ctx.violate("entropy/%s/retry-carries-over-rejected-bytes" % name,
+                                "%s%s: after a rejected draw the retry is not a fresh uniform draw: in the sub-tree of one rejected tape prefix "
+                                "value %r has %d pre-images and value %r has %d" % (name, cfg[1:], hi, cnt.get(hi, 0), lo, cnt.get(lo, 0)),
+                                observed="max %d min %d" % (max(counts), min(counts)), expected="equal pre-image counts in every retry")
+                ctx.probe("enum_retry_subtree_uniform")
         if U == 0:
             ctx.probe("enum_fully_resolved")
         else:
@@ -573,6 +612,45 @@ class Machine(object):
             return (pow(s_, -1, q) * (z + r * x)) % q, t.pos
         self._collision_probe(ctx, "DSS-nonce", value_of, q - 1, 1, case["seed"])
 
+    def run_replay_history(self, case, ctx):
+        """A sequence of values drawn from ONE randfunc, replayed from the same tape in the same process: the sequences
+        must be equal (no state kept between calls may influence what a tape produces)."""
+        from Crypto.Math.Primality import generate_probable_prime
+        from Crypto.Util import number
+        from Crypto.PublicKey import DSA, RSA, ECC
+        what, bits = case["what"], case["bits"]
+        ctx.state(("replay_history", what))
+        ctx.fault("rng.replay")
+        tape = data("hist%s" % case["seed"], 400000)
+        seqs = []
+        for rep in range(3):
+            t = Tape(tape)
+            entropy.reset_stream("g-%d" % rep)
+            try:
+                if what == "primes":
+                    seq = [int(generate_probable_prime(exact_bits=bits, randfunc=t)) for _ in range(3)]
+                elif what == "getprime":
+                    seq = [int(number.getPrime(bits, randfunc=t)) for _ in range(3)]
+                elif what == "dsa_keys":
+                    seq = [int(DSA.generate(1024, randfunc=t, domain=self.dsa.domain()).x) for _ in range(2)]
+                elif what == "rsa_key":
+                    k = RSA.generate(1024, randfunc=t)
+                    seq = [int(k.n), t.pos]
+                else:
+                    seq = [ECC.generate(curve=c, randfunc=t).export_key(format="DER") for c in ("p256", "ed25519", "p521")]
+            except TapeExhausted:
+                seq = ["exhausted"]
+            finally:
+                entropy.reset_stream(0)
+            seqs.append((seq, t.pos))
+        ctx.obs(what, seqs[0][1])
+        if not (seqs[0] == seqs[1] == seqs[2]):
+            ctx.violate("entropy/replay/%s/not-a-function-of-the-tape" % what,
+                        "the same randfunc tape replayed three times in one process gave different value sequences or consumed "
+                        "different amounts of entropy (%s, %s, %s bytes): something other than the tape influences the result" % (
+                            seqs[0][1], seqs[1][1], seqs[2][1]),
+                        observed=[repr(x[0])[:80] for x in seqs], expected="identical sequences")
+
     def run_global(self, case, ctx):
         what = case["what"]
         kind = case["tape"]
@@ -639,7 +717,7 @@ class Machine(object):
             "assumptions": ["uniformity is decided exactly only for the enumerated small ranges; for cryptographic sizes only bounds, "
                             "determinism, randfunc exclusivity and termination are decided",
                             "a non-uniformity is reported only when no completion of the unexplored retry mass could repair it"],
-            "expected_probes": ["enum_fully_resolved", "enum_with_unexplored_retries", "enum_second_attempt_explored", "dead_rng_detected", "collision_probe_rejected_as_expected"],
+            "expected_probes": ["enum_fully_resolved", "enum_with_unexplored_retries", "enum_second_attempt_explored", "dead_rng_detected", "collision_probe_rejected_as_expected", "enum_retry_subtree_uniform"],
             "exhaustive": True,
             "not_reached": ["uniformity at cryptographic sizes (not enumerable; structural argument only)"],
         }
